@@ -12,19 +12,24 @@ import orbits
 ID = "C03"
 LEAN_TARGETS = ["PV.Props.C03"]
 RULE = ("cases (TLE, observer, start, length, horizon): TLEs = the near-earth element sets of pyorbital's tests / SGP4-VER "
-        "plus random 'leo' and 'near' (eccentric, period < 225 min) families from tlegen; start = epoch +- 3 d; length "
-        "1-12 h (quick) / 1-72 h (thorough); horizon in {0,5,10,30,60} deg or, for grazing cases, the peak elevation of a "
-        "found pass minus 0.002-0.3 deg (passes of 30-200 s); 40 % of the observers are put on the ground track at a random "
-        "instant of the window (passes culminating above 85 deg), the others are uniform on the sphere, altitude 0-3 km; "
-        "edge cases start the window inside a pass or end it inside one. Correspondence: the real get_next_passes with "
-        "_get_root, _get_max_parab, _get_min_bounded and the per-minute elevation samples observed by wrapping module / "
-        "instance attributes; the Lean model gets the same samples and root / maximiser answers and must return the same "
-        "crossing indices, the same pass list (rise, fall, culmination as datetimes), the same middle index and the same "
-        "maximiser bracket bit for bit; a stream with the horizon set to the elevation of one minute sample (sample exactly "
-        "0.0) is compared too; every observable update of the parabolic interpolation is compared with the model's parabStep. "
-        "Oracle (statement only): elevation sampled every second over the window, crossings refined by bisection to 1e-9 s, "
-        "maxima refined on 1 ms and 1 us grids. distinct = (tle, observer, start, length, horizon); non-trivial = at least "
-        "one pass reported or one above-horizon interval in the truth")
+        "plus as many random 'leo' and 'near' (eccentric, period < 225 min) element sets from tlegen; start = epoch +- 3 d; "
+        "length 1-14 h (quick) / 1-72 h (thorough); horizon in {0,5,10,30,60} deg or, for grazing cases, the peak elevation of "
+        "a found pass minus 0.002-0.3 deg (passes of some 30-200 s); 40 % of the observers are put on the ground track at a "
+        "random instant of the window (offset 0-0.3 deg: passes culminating above 85 deg), the others are uniform on the "
+        "sphere, altitude 0-3 km; derived cases start the window inside a pass or end it inside / up to 90 s after one; a "
+        "case is kept only if the propagated altitude stays within 80-30000 km at every whole minute of the window; an "
+        "exception of get_next_passes on a kept case is a violation, not a refusal. Correspondence: the real "
+        "get_next_passes with _get_root, _get_max_parab, _get_min_bounded and the per-minute elevation samples observed by "
+        "wrapping module / instance attributes (middle, int_start, int_end read from the caller's frame); the Lean model gets "
+        "the same samples and root / maximiser answers and must return the same crossing indices (= the sequence of root "
+        "brackets), the same pass list (rise, fall, culmination as datetimes), the same middle, int_start, int_end and the "
+        "same maximiser bracket bit for bit; a stream with the horizon set to the elevation of one whole-minute sample (a "
+        "sample exactly 0.0) is compared too; every observable update of the parabolic interpolation is compared with the "
+        "model's parabStep. Oracle (statement only): elevation sampled every second over the window, crossings refined by "
+        "bisection to 1e-9 s, maxima refined on 1 ms and 1 us grids; a >60 s interval counts as reported when a pass has rise "
+        "and fall within 1 s of its ends; 'in between' is judged at the whole seconds at least 1 ms inside (rise, fall). "
+        "distinct = (tle, observer, start, length, horizon); non-trivial = at least one pass reported or one above-horizon "
+        "interval in the truth")
 ASSUMPTIONS = ["cases whose propagated altitude leaves 80-30 000 km at a whole minute of the window are skipped (element sets "
                "propagated beyond their decay give million-km positions that pyorbital does not refuse; refusals are C13)",
                "the elevation is what Orbital.get_observer_look returns (its correctness is C05's subject)",
@@ -34,7 +39,7 @@ ASSUMPTIONS = ["cases whose propagated altitude leaves 80-30 000 km at a whole m
                "no minute sample exactly on the horizon (NoZeroSample) for the ordering theorems; the loop's behaviour with "
                "such a sample is modelled, compared, and proved to break the ordering (exact_zero_sample_degenerate_pass)",
                "NaN-free elevation samples"]
-TRUSTED = ["model PV.Model.Passes (hand-written from orbital.py:340-387 and 540-568), tied by the correspondence above",
+TRUSTED = ["model PV.Model.Passes (hand-written from orbital.py:341-388 and 542-570), tied by the correspondence above",
            "scipy.optimize.brentq and minimize_scalar(bounded) (parameters of the model with contracts)",
            "the oracle's own dense sampling (1 s) and refinement"]
 LEVEL_TEXT = ("Theorems (Lean 4, all sample lists of any length, every root finder / maximiser meeting the contracts): each pass "
